@@ -2,7 +2,6 @@ package c11
 
 import (
 	"fmt"
-	"math/big"
 	"strings"
 	"sync"
 	"time"
@@ -384,31 +383,7 @@ func (o outcome) line() string {
 	return fmt.Sprintf("dec %s tip %d synced %d asked %s reqs %s", o.dec, o.tip, b2i(o.synced), idList(o.asked), reqs)
 }
 
-// workTrace records the victim's total work at every reorg notification.
-type workTrace struct {
-	mu    sync.Mutex
-	works []*big.Int
-}
+// workTrace: the victim's total work at every reorg notification (netx.WorkTrace).
+type workTrace = netx.WorkTrace
 
-func traceWork(n *netx.Node) *workTrace {
-	w := &workTrace{works: []*big.Int{netx.WorkOf(n.CM.TipState().TotalWork)}}
-	n.CM.OnReorg(func(types.ChainIndex) {
-		tw := netx.WorkOf(n.CM.TipState().TotalWork)
-		w.mu.Lock()
-		w.works = append(w.works, tw)
-		w.mu.Unlock()
-	})
-	return w
-}
-
-// decreasing returns a description of the first decrease, or "".
-func (w *workTrace) decreasing() string {
-	w.mu.Lock()
-	defer w.mu.Unlock()
-	for i := 1; i < len(w.works); i++ {
-		if w.works[i].Cmp(w.works[i-1]) < 0 {
-			return fmt.Sprintf("total work went from %v to %v", w.works[i-1], w.works[i])
-		}
-	}
-	return ""
-}
+func traceWork(n *netx.Node) *workTrace { return netx.TraceWork(n) }
